@@ -175,10 +175,13 @@ class Program(object):
                     defined_at = next(statement for statement in self.statements if statement.label == symbol)
                     raise TranslationError(str(error), defined_at)
 
-        # Find the origin and name of the project
+        # Find the origin and name of the project. An ORG that follows code can
+        # only name the current location, and does not move where the image starts
+        code_seen = False
         for statement in self.statements:
-            if statement.instruction.is_origin:
+            if statement.instruction.is_origin and not code_seen:
                 self.origin = statement.code_pkg.address
+            code_seen = code_seen or statement.code_pkg.size > 0
             if statement.instruction.is_name:
                 self.name = statement.operand.operand_string
 
